@@ -77,7 +77,16 @@ class World:
             known = names + [name]
             used = set()
             for _ in range(rng.randrange(1, 8)):
-                kind = rng.choice(['method', 'method', 'method', 'static', 'field', 'ctor', 'enum', 'property', 'seq', 'operator', 'typedef'])
+                kind = rng.choice(['method', 'method', 'method', 'static', 'field', 'ctor', 'enum', 'property', 'seq', 'operator', 'typedef', 'overload'])
+                if kind == 'overload':
+                    # an overload set: same name, parameter lists that differ in arity, in type, or only in the constness / reference-ness of a class parameter
+                    o = rng.choice([n for n in known])
+                    shapes = [[], [('int', 'int')], [('double', 'double')], [('int', 'int'), ('int', 'int')], [('%s &' % o, '%s *' % o)], [('const %s &' % o, '%s const *' % o)],
+                              [('%s *' % o, '%s *' % o)], [('const %s *' % o, '%s const *' % o)], [('bool', 'bool'), ('const %s &' % o, '%s const *' % o)]]
+                    chosen = rng.sample(shapes, rng.choice([2, 2, 3]))
+                    cls['members'].append({'kind': 'overload', 'name': self.fresh('ov'), 'const': rng.random() < 0.3,
+                                           'overloads': [[{'name': 'arg%d' % i, 'type': {'src': a, 'db': d_, 'cls': None}, 'default': None} for i, (a, d_) in enumerate(sh)] for sh in chosen]})
+                    continue
                 if kind in ('method', 'static'):
                     m = {'kind': kind, 'name': self.fresh('m'), 'ret': self.rtype(known, name), 'params': self.params(known), 'const': kind == 'method' and rng.random() < 0.4,
                          'virtual': kind == 'method' and rng.random() < 0.25, 'comment': None}
@@ -220,6 +229,9 @@ class World:
                                                               ' const' if m['const'] else ''), key)
                 elif k == 'operator':
                     decl('  %s %s%s const;' % (m['ret']['src'], m['name'], self.sig(m['params'])), key)
+                elif k == 'overload':
+                    for ps in m['overloads']:
+                        L.append('  int %s%s%s;' % (m['name'], self.sig(ps), ' const' if m['const'] else ''))
                 elif k == 'field':
                     m['comment'] = decl('  %s%s %s;' % ('const ' if m['const'] else '', m['type'], m['name']), key)
                 elif k == 'ctor':
